@@ -164,7 +164,7 @@ def build():
         'setup_cmd': './setup.sh',
         'hooks': {
             'guard': 'verif',
-            'enable': 'go build -tags verif -modfile=<generated alt go.mod with replace lib => /repo/lib> -overlay=<adds /verif/harness/zz_verif*.go to package main of httpClient>; nothing is committed to /repo',
+            'enable': 'go build -tags verif -modfile=<generated alt go.mod with replace lib => /repo/lib> -overlay=<adds /verif/harness/zz_verif*.go to package main of httpClient and /verif/harness/lib/**/zz_verif*.go (exports of unexported helpers, all `//go:build verif`) to the matching packages of lib>; nothing is committed to /repo',
             'baseline_off_cmd': 'for m in . httpClient lib; do (cd /repo/$m && GOFLAGS=-mod=mod go test -vet=off -count=1 ./...) || exit 1; done',
             'source_commits': [],
             'add_only': True,
